@@ -6,6 +6,7 @@ import (
 	"context"
 	"encoding/binary"
 	"errors"
+	"fmt"
 	"io"
 	"net"
 	"net/http"
@@ -281,6 +282,15 @@ func (w *World) Serve(name string, h http.Handler, method string, hdr http.Heade
 		h.ServeHTTP(rw, r)
 		hr.Returned = true
 		if !rw.Hijacked {
+			// what net/http does with a handler that returns on a connection it still owns: the response the
+			// handler set (or 200 when it set none) with its body, then - the request methods of the gateway
+			// protocol carry no usable framing for a second request - the connection is closed
+			code := rw.Code
+			if code == 0 {
+				code = 200
+			}
+			srv.Write([]byte(fmt.Sprintf("HTTP/1.1 %d %s\r\nContent-Length: %d\r\n\r\n", code, http.StatusText(code), rw.Body.Len())))
+			srv.Write(rw.Body.Bytes())
 			srv.Close()
 		}
 	})
